@@ -35,6 +35,7 @@ package table
 // respect the limits may be proposed ([C16.limits]); dragonboat returns the Result the state
 // machine produced for the proposer's entry.
 //@ ghostfield any.nprop Int
+//@ ghostfield any.lastRev uint64
 //@ ghostfield any.nsync Int
 //@ ghostfield any.nstale Int
 //@ iface table.raftHandler.SyncPropose
@@ -43,7 +44,8 @@ package table
 //@   results res, err
 //@   requires [C16.limits] validCmdBytes(bytes)
 //@   ensures nh.nprop == old(nh.nprop) + 1
-//@   modifies nh.nprop
+//@   ensures err == nil ==> world.lastRev == revOf(res.Data)      // ghost: the revision encoded in the Result the state machine produced for this proposal
+//@   modifies nh.nprop, world.lastRev
 //@ iface table.raftHandler.SyncRead
 //@   assumed
 //@   params nh, ctx, id, req
@@ -67,7 +69,9 @@ package table
 //@   ensures [C16.put.klen]  len(req.Key) > 1024 ==> err == serrors.ErrKeyLengthExceeded && t.nh.nprop == old(t.nh.nprop)
 //@   ensures [C16.put.vlen]  len(req.Key) > 0 && len(req.Key) <= 1024 && len(req.Value) > 2097152 ==> err == serrors.ErrValueLengthExceeded && t.nh.nprop == old(t.nh.nprop)
 //@   ensures [C16.put.once]  t.nh.nprop <= old(t.nh.nprop) + 1
-//@   modifies t.nh.nprop
+//@   ensures [C10.put.rev]   err == nil ==> resp != nil && resp.Header != nil && resp.Header.Revision == world.lastRev      // the acknowledged revision is the one the state machine assigned to this very proposal
+//@   ensures err == nil ==> fresh(resp) && fresh(resp.Header)
+//@   modifies t.nh.nprop, world.lastRev
 
 //@ func (*ActiveTable).Delete
 //@   results resp, err
@@ -77,7 +81,9 @@ package table
 //@   ensures [C16.del.klen]  len(req.Key) > 1024 ==> err == serrors.ErrKeyLengthExceeded && t.nh.nprop == old(t.nh.nprop)
 //@   ensures [C16.del.rlen]  len(req.Key) > 0 && len(req.Key) <= 1024 && len(req.RangeEnd) > 1024 ==> err == serrors.ErrKeyLengthExceeded && t.nh.nprop == old(t.nh.nprop)      // the end of a range is a key: same limit as for Range
 //@   ensures [C16.del.once]  t.nh.nprop <= old(t.nh.nprop) + 1
-//@   modifies t.nh.nprop
+//@   ensures [C10.del.rev]   err == nil ==> resp != nil && resp.Header != nil && resp.Header.Revision == world.lastRev
+//@   ensures err == nil ==> fresh(resp) && fresh(resp.Header)
+//@   modifies t.nh.nprop, world.lastRev
 
 // ActiveTable.Txn: a read-only transaction takes the consensus read path and proposes nothing; any
 // other transaction is proposed exactly once, and only if every nested operation respects the limits.
@@ -88,7 +94,9 @@ package table
 //@   ensures [C10.txn.ro]    old(roAllRange(req)) ==> t.nh.nprop == old(t.nh.nprop) && t.nh.nstale == old(t.nh.nstale)
 //@   ensures [C16.txn.once]  t.nh.nprop <= old(t.nh.nprop) + 1
 //@   ensures [C16.txn.limits] !(okOps(req.Success) && okOps(req.Failure)) ==> err != nil && t.nh.nprop == old(t.nh.nprop)
-//@   modifies t.nh.nprop, t.nh.nsync, t.nh.nstale
+//@   ensures [C10.txn.rev]   err == nil && t.nh.nprop == old(t.nh.nprop) + 1 ==> resp != nil && resp.Header != nil && resp.Header.Revision == world.lastRev
+//@   ensures err == nil && t.nh.nprop == old(t.nh.nprop) + 1 ==> fresh(resp) && fresh(resp.Header)
+//@   modifies t.nh.nprop, t.nh.nsync, t.nh.nstale, world.lastRev
 //@ pure func roAllRange(req *regattapb.TxnRequest) bool = (forall j int :: 0 <= j && j < len(req.Success) ==> typeIs(req.Success[j].Request, *regattapb.RequestOp_RequestRange)) && (forall j int :: 0 <= j && j < len(req.Failure) ==> typeIs(req.Failure[j].Request, *regattapb.RequestOp_RequestRange))
 
 // validateRequestOps: nil exactly when every operation respects the limits
@@ -456,6 +464,14 @@ package table
 
 // GetTableByID: found exactly if some listed table carries the id as its cluster id, and then it is
 // such a table that is returned.
+// GetTable: the active table of the record read under `name`, bound to the manager's node host
+//@ func (*Manager).GetTable
+//@   params m, name
+//@   results at, err
+//@   requires m != nil && m.store != nil && m.nh != nil
+//@   ensures [C14.gettable] err == nil ==> m.store.rHas[tkey(name)] && at.Table == tableOf(bytesOf(m.store.rPair[tkey(name)].Value)) && typeIs(at.nh, *dragonboat.NodeHost) && asType(at.nh, *dragonboat.NodeHost) == m.nh
+//@   ensures forall k string :: k != tkey(name) ==> m.store.rHas[k] == old(m.store.rHas[k]) && m.store.rPair[k] == old(m.store.rPair[k])
+//@   modifies m.store.rHas, m.store.rPair
 //@ func (*Manager).GetTableByID
 //@   params m, id
 //@   results at, err
@@ -612,9 +628,10 @@ package table
 // Range / Iterator: the consistency level requested by the caller decides the read path
 //@ func (*ActiveTable).Range
 //@   maypanic
+//@   results resp, err
 //@   requires t != nil && t.nh != nil && req != nil
 //@   ensures [C10.range.path] len(req.Key) <= 1024 && len(req.RangeEnd) <= 1024 ==> (req.Linearizable ==> t.nh.nsync == old(t.nh.nsync) + 1 && t.nh.nstale == old(t.nh.nstale)) && (!req.Linearizable ==> t.nh.nstale == old(t.nh.nstale) + 1 && t.nh.nsync == old(t.nh.nsync))
-//@   ensures [C16.range.limits] len(req.Key) > 1024 || len(req.RangeEnd) > 1024 ==> t.nh.nsync == old(t.nh.nsync) && t.nh.nstale == old(t.nh.nstale)
+//@   ensures [C16.range.limits] len(req.Key) > 1024 || len(req.RangeEnd) > 1024 ==> err == serrors.ErrKeyLengthExceeded && t.nh.nsync == old(t.nh.nsync) && t.nh.nstale == old(t.nh.nstale)
 //@   modifies t.nh.nsync, t.nh.nstale
 //@ func (*ActiveTable).Iterator
 //@   maypanic
